@@ -34,6 +34,8 @@ EXTERNAL_RAISES = {
     "len": set(), "sorted": set(), "isinstance": set(), "hasattr": set(), "bool": set(), "str": set(), "repr": set(), "list": set(), "tuple": set(),
     "set": set(), "frozenset": set(), "dict": set(), "enumerate": set(), "zip": set(), "range": set(), "all": set(), "any": set(), "ord": set(),
     "print": set(), "round": set(), "sum": set(), "iter": set(), "reversed": set(), "callable": set(), "getattr": {"AttributeError"}, "abs": set(),
+    "map": set(), "filter": set(), "bytearray": {"ValueError"}, "id": set(), "type": set(), "divmod": {"ZeroDivisionError"}, "slice": set(), "memoryview": set(),
+    "regex.compile": set(), "regex.split": set(), "regex.subn": set(), "regex.escape": set(),
     "int": {"ValueError"}, "bytes": {"ValueError"}, "chr": {"ValueError", "OverflowError"}, "max": {"ValueError"}, "min": {"ValueError"}, "next": {"StopIteration"},
     "regex.finditer": set(), "regex.search": set(), "regex.match": set(), "regex.fullmatch": set(), "regex.sub": set(), "regex.findall": set(),
     "binascii.unhexlify": {"binascii.Error"}, "binascii.a2b_hex": {"binascii.Error"}, "binascii.a2b_base64": {"binascii.Error"}, "bytes.fromhex": {"ValueError"},
